@@ -454,6 +454,9 @@ async fn run_shard_union(
             off += n;
         }
     }
+    // the engine keeps a split set in canonical order (table, file NAME, row group, offset) and hands every node its splits
+    // in that order (assign_lpt): with same-named files the pieces of different files interleave
+    splits.sort_by(|a, b| (&a.table, &a.file, a.row_group, a.row_offset).cmp(&(&b.table, &b.file, b.row_group, b.row_offset)));
     let set = SplitSet { table: set0.table.clone(), splits, total_bytes: set0.total_bytes, total_rows: set0.total_rows, target_split_bytes: set0.target_split_bytes };
     let mut rng = rand::rngs::StdRng::seed_from_u64(seed);
     let mut per_node: Vec<Vec<usize>> = vec![Vec::new(); nodes];
